@@ -1,5 +1,6 @@
 """C05 — only an authentic, matching response can answer a query or enter the cache."""
 from lib import *  # noqa
+import C17
 
 TECHNIQUE = "must-pass-through (edge-cut reachability) of every acceptance effect through the ordered response gate; comparison-shape check of the question matcher and source-address filter; who-may-call for the cache"
 LEVEL_TEXT = ("static: decides that every CFG path to an acceptance effect in process_answer (callback delivery, cache insert, "
@@ -447,3 +448,6 @@ def run(prog, R, tier):
     r_src(prog, R)
     r_cache(prog, R)
     r_qid(prog, R)
+    # "passes the DNS-cookie checks": the cookie state machine is what makes a cookie-less reply unacceptable
+    C17.r_fsm(prog, R, rid="R-C05-COOKIEFSM")
+    C17.r_accept(prog, R, rid="R-C05-COOKIEACCEPT")
